@@ -14,6 +14,9 @@ EXPLANATION = (
     "(type checker, MIR lowerer, test discovery), contains a byte the lexer turns into a punctuation token (so no script identifier can "
     "collide with it or call it), discovery matches on the last path segment and the collected names are sorted before use."
 )
+EXPLANATION += (  # round-3 supplement
+    ' X2 finds the failure counter (or the folded result) by data flow. X4 every CLI sub-command loads its input with FileTree::read.'
+)
 ASSUMPTIONS = [
     "process exit codes are produced only by roto::cli (main.rs returns its ExitCode)",
 ]
